@@ -36,7 +36,7 @@ func seedBytes(si int) []byte {
 type kp struct {
 	inst int
 	p    *ref.MldsaParams
-	par  *mldsab.Params
+	par  mldsab.API // exported method set of the parameter set (API level: works without the export shim)
 	seed []byte
 	pk   []byte // pkEncode per stdlib
 	sk   []byte // skEncode per stdlib
@@ -52,7 +52,7 @@ func getKP(inst, si int) *kp {
 	if v, ok := kpCache.Load(key); ok {
 		return v.(*kp)
 	}
-	k := &kp{inst: inst, p: ref.MldsaSet(inst), par: mldsab.Par(inst), seed: seedBytes(si)}
+	k := &kp{inst: inst, p: ref.MldsaSet(inst), par: mldsab.APIOf(inst), seed: seedBytes(si)}
 	var err error
 	k.std, err = mldsaref.NewPrivateKey(inst, k.seed)
 	if err != nil {
@@ -344,6 +344,10 @@ func sectionSignHedged(x *h.X) {
 	rnd := rndBytes(ri)
 	msg, ctx := ref.Pattern(2, ml), ctxBytes(cl)
 	what := fmt.Sprintf("rnd#%d msglen=%d ctxlen=%d", ri, ml, cl)
+	if !h.Seams() && ri >= 3 { // these leaves only exercise Sign_internal with a chosen rnd (export shim)
+		x.Outcome("needs-seam")
+		return
+	}
 	x.NonTrivial()
 	x.Outcome("given-rnd")
 	sigS, err := mldsaref.SignWithRandom(k.std, msg, string(ctx), rnd)
@@ -354,20 +358,22 @@ func sectionSignHedged(x *h.X) {
 	if sigR := ref.MldsaSign(k.p, k.sk, msg, ctx, rnd); !bytes.Equal(sigR, sigS) {
 		x.Fail("harness-oracles-disagree", "%s %s: stdlib and model hedged signatures differ", k, what)
 	}
-	mp := append(append([]byte{0, byte(len(ctx))}, ctx...), msg...)
-	var r32 [32]byte
-	copy(r32[:], rnd)
-	sigT := mldsab.SignInternal(k.tsk, mp, r32)
-	x.Eval(1)
-	if !bytes.Equal(sigT, sigS) {
-		x.Fail("hedged-signature", "%s %s: Sign_internal(M', rnd=%x) differs from FIPS 204 at byte %d", k, what, rnd, diffAt(sigT, sigS))
-	}
-	vt, vs, _ := k.verdicts(x, msg, sigT, ctx, what)
-	if !vs {
-		x.Fail("produced-signature-invalid", "%s %s: hedged signature produced by tink is rejected by the FIPS 204 reference", k, what)
-	}
-	if vs && !vt {
-		x.Fail("verify-valid", "%s %s: tink rejects its own hedged signature", k, what)
+	if h.Seams() { // Sign_internal with a chosen rnd is only reachable through the export shim
+		mp := append(append([]byte{0, byte(len(ctx))}, ctx...), msg...)
+		var r32 [32]byte
+		copy(r32[:], rnd)
+		sigT := mldsab.SignInternal(k.tsk, mp, r32)
+		x.Eval(1)
+		if !bytes.Equal(sigT, sigS) {
+			x.Fail("hedged-signature", "%s %s: Sign_internal(M', rnd=%x) differs from FIPS 204 at byte %d", k, what, rnd, diffAt(sigT, sigS))
+		}
+		vt, vs, _ := k.verdicts(x, msg, sigT, ctx, what)
+		if !vs {
+			x.Fail("produced-signature-invalid", "%s %s: hedged signature produced by tink is rejected by the FIPS 204 reference", k, what)
+		}
+		if vs && !vt {
+			x.Fail("verify-valid", "%s %s: tink rejects its own hedged signature", k, what)
+		}
 	}
 	if ri >= 3 {
 		return
